@@ -244,11 +244,10 @@ func (c *connection) onProcess(onConnect OnConnect, onRequest OnRequest) (proces
 		//       So here we need to check connection state again, to avoid connection leak
 		// double check close state
 		if c.status(closing) != 0 && c.lock(processing) {
-			// poller will get the processing lock failed, here help poller do closeCallback
-			// fd must already detach by poller
-			c.closeCallback(false, false)
-			panicked = false
-			return
+			// poller will get the processing lock failed, here help poller do closeCallback.
+			// Input may have arrived after the loop's last Len() check, so go through START
+			// (which offers it to onRequest) rather than closing directly.
+			goto START
 		}
 		// double check is processable
 		if onRequest != nil && c.Reader().Len() > 0 && c.lock(processing) {
